@@ -175,9 +175,9 @@ func (e *Env) tokenSpaces(thorough bool) []*Space {
 		}),
 	}
 	pbA := alphabet{Name: "protobuf", Tok: [][]byte{{0x08}, {0x0A}, {0x10}, {0x12}, {0x18}, {0x20}, {0x0D}, {0x09}, {0x0B}, {0x0C}, {0x00}, {0x01}, {0x04}, {0x7F}, {0x80}, {0xFF}, {0xFF, 0xFF, 0xFF, 0xFF, 0x0F}, {0xFF, 0xFF, 0xFF, 0xFF, 0xFF, 0xFF, 0xFF, 0xFF, 0xFF, 0x01}, {'a'}}}
-	l := 5
+	l := 4
 	if thorough {
-		l = 6
+		l = 5
 	}
 	out = append(out, e.sigma("tokens", "token-records", pbA, l, recDecs, nil, nil)...)
 	// protobuf has no fixed layout: "fields" = every byte of a valid record set to every
